@@ -1,5 +1,6 @@
 CONSTANTS
   FixLostTail = FALSE
+  MismatchResync = TRUE
 SPECIFICATION TraceSpec
 INVARIANTS NoHoles
 CONSTRAINT HighWater
